@@ -7,10 +7,12 @@ from copy import deepcopy
 from typing import TYPE_CHECKING
 
 # Third Party Imports
-from numpy import argmax, argwhere, array, ceil, concatenate, delete, dot, hstack, linspace, ones, outer
+from numpy import argmax, argwhere, array, ceil, concatenate, delete, dot, errstate, exp, hstack
+from numpy import isfinite, linspace, log, ones, outer, pi
 from numpy import round as np_round
 from numpy import sum as np_sum
 from numpy import union1d, vstack, zeros
+from numpy.linalg import slogdet
 from scipy.linalg import norm
 
 # Local Imports
@@ -638,6 +640,39 @@ class AdaptiveFilter(KalmanFilter):
                 self.model_weights,
             )
             self.nis = dot([x.nis for x in self.models], self.model_weights)
+
+    def _bayesRule(self, prior: ndarray) -> tuple[ndarray, ndarray | None]:
+        r"""Weight a prior by the Gaussian likelihood of each model's innovation, evaluated with logarithms.
+
+        The likelihood :math:`\exp(-\frac{1}{2}\nu^T S^{-1}\nu) / \sqrt{(2\pi)^m |S|}` is formed as a
+        log-likelihood (``slogdet`` instead of ``det``) and the product with the prior is normalized with
+        the largest term factored out, so neither a tiny nor a huge :math:`|S|` nor a large NIS spoils
+        the posterior as long as a single model keeps any probability mass.
+
+        Args:
+            prior (``ndarray``): probability of each model before the measurement update.
+
+        Returns:
+            ``tuple``: model likelihoods relative to the most likely model, and the posterior
+            probabilities, which are ``None`` if every model's probability mass is zero (underflow).
+
+        References:
+            :cite:t:`nastasi_2018_diss`, Section 4.5, Algorithm 4.3, Eq 4.9-4.11, Pg 64
+        """
+        log_likelihoods = zeros(len(self.models))
+        for num, model in enumerate(self.models):
+            _, log_det = slogdet(model.innov_cvr)
+            y_dim = array(model.innovation).size
+            log_likelihoods[num] = -0.5 * (model.nis + y_dim * log(2 * pi) + log_det)
+
+        with errstate(divide="ignore"):
+            log_mass = log(prior) + log_likelihoods
+        if not isfinite(log_mass.max()):
+            return ones(len(self.models)), None
+
+        likelihoods = exp(log_likelihoods - log_likelihoods[isfinite(log_mass)].max())
+        mass = exp(log_mass - log_mass.max())
+        return likelihoods, mass / np_sum(mass)
 
     def prune(self, prune_index: ndarray, observations: list[Observation]):
         """Prune off filter candidate solutions.
